@@ -49,6 +49,7 @@ type fsubRun struct {
 	spacers   int // plain clones between the root and P
 	ops       []fop
 	initial   []fop // server content before anything else
+	zeroVer   bool  // the first object carries resource version 0
 	deadlock  string
 	problems  []string
 	modelOps  []enc.T
@@ -76,8 +77,13 @@ func objsOfIDs(ids []int) []*Obj {
 func runFsub(c *Ctx, r *fsubRun) {
 	r.deadlock = sched.Bubble(c.T, func() {
 		srv := fakeapi.New()
-		for _, o := range r.initial {
-			srv.Set(o.ns, o.nm, labSets[o.lab], 1)
+		if r.zeroVer {
+			srv.StartVersion(0)
+		}
+		if !r.zeroVer {
+			for _, o := range r.initial {
+				srv.Set(o.ns, o.nm, labSets[o.lab], 1)
+			}
 		}
 		ct := newCtlWith(srv, r.seed, r.level, 1000000*time.Second, nil)
 		var t *tree
@@ -94,6 +100,14 @@ func runFsub(c *Ctx, r *fsubRun) {
 			}
 		}()
 		ct.pert.Barrier()
+		if r.zeroVer {
+			// the content arrives through the watch (the first object at resource
+			// version 0) before the node under test exists
+			for _, o := range r.initial {
+				srv.Set(o.ns, o.nm, labSets[o.lab], 1)
+			}
+			ct.pert.Barrier()
+		}
 		t = newTree(ct, nil)
 		parent := t.root
 		for i := 0; i < r.spacers; i++ {
@@ -283,6 +297,8 @@ func rebuild(f *Filt) *Filt {
 
 func runC07(c *Ctx) {
 	fam := filterFamily()
+	// two conjunctions that differ only in a non-comparable (FN) child: never equal
+	fam = append(fam, and(fn(fam[2]), fam[5]), and(fn(fam[3]), rebuild(fam[5])))
 	// parent contents over 2 keys x {absent, no label, {1:1}, {1:2}}
 	var contents [][]fop
 	for a := 0; a < 4; a++ {
@@ -310,7 +326,7 @@ func runC07(c *Ctx) {
 					f3 = fam[(i1+i2+1)%len(fam)]
 				}
 				kind := []int{nFSub, nFClone}[(i1+ci)%2]
-				r := &fsubRun{seed: c.Seed + int64(runs), kind: kind, init: f1, initial: cont,
+				r := &fsubRun{seed: c.Seed + int64(runs), kind: kind, init: f1, initial: cont, zeroVer: (i1+2*i2+ci)%3 == 0,
 					ops: []fop{{kind: 1, f: rebuild(f2)}, {kind: 1, f: f3}, {kind: 1, f: rebuild(f3)}}}
 				runFsub(c, r)
 				runs++
@@ -366,7 +382,7 @@ func runC07(c *Ctx) {
 			}
 		}
 	}
-	c.Rep.Rule = "ready filtered subscriptions / filtered clones below a real (ready, quiet) controller through the public API with barriers: every ordered pair of a 7-member filter family (accept-all, accept-none, two overlapping label filters, a negation, a disjunction, a non-comparable FN), each rebuilt so that Equals is exercised on distinct values, then a third Refilter (back to the first filter or another member) and a repeated one; x all parent contents over 2 keys x {absent, unlabelled, label a, label b} (quick: a quarter of the triples). Plus: for-filter nodes taken through first filter / another / back to accept-none / first again, and immediate nodes refiltered before their (gated) parent is ready and then back to the constructor's filter. Per Refilter: events delivered between barriers and cache vs the extracted fs_step model (Delete exactly for cached objects the new filter rejects, Create exactly for parent objects newly accepted, nothing for an equal filter), Ready, filtered parent content. Non-trivial = scenario in which some Refilter emitted events."
+	c.Rep.Rule = "ready filtered subscriptions / filtered clones below a real (ready, quiet) controller through the public API with barriers: every ordered pair of a 9-member filter family (accept-all, accept-none, two overlapping label filters, a negation, a disjunction, a non-comparable FN, two conjunctions differing only in an FN child), each rebuilt so that Equals is exercised on distinct values, then a third Refilter (back to the first filter or another member) and a repeated one; x all parent contents over 2 keys x {absent, unlabelled, label a, label b} (quick: a quarter of the triples; in a third of them the first object carries resource version 0). Plus: for-filter nodes taken through first filter / another / back to accept-none / first again, and immediate nodes refiltered before their (gated) parent is ready and then back to the constructor's filter. Per Refilter: events delivered between barriers and cache vs the extracted fs_step model (Delete exactly for cached objects the new filter rejects, Create exactly for parent objects newly accepted, nothing for an equal filter), Ready, filtered parent content. Non-trivial = scenario in which some Refilter emitted events."
 	c.Rep.Stats["runs"] = runs
 }
 
